@@ -345,7 +345,7 @@ func C10() int {
 
 	c.Set("keys", len(keys))
 	c.Set("flag_sets", flagNames(fsetsPairs))
-	c.Set("race_reports", s.RaceReports())
+	raceVerdict(s, c)
 	if c.Counter("plaintext_ciphertext_pairs_in_bimap") < 5000 {
 		c.Inconclusive(fmt.Sprintf("only %d plaintext/ciphertext pairs", c.Counter("plaintext_ciphertext_pairs_in_bimap")))
 	}
